@@ -21,8 +21,8 @@ def run_cli(ctx):
     # a private go.mod/go.sum: `go` must not be able to rewrite /repo's own, whatever it decides
     for fn in ("go.mod", "go.sum"):
         shutil.copy(os.path.join(REPO, fn), os.path.join(ctx.tmp, "c13-" + fn))
-    env = {"VERIF_OUT": out, "VERIF_SEED": str(ctx.seed), "VERIF_C13_SPELLINGS": "4" if ctx.quick() else "8",
-           "VERIF_C13_RANDOM": "0" if ctx.quick() else "300"}
+    env = {"VERIF_OUT": out, "VERIF_SEED": str(ctx.seed), "VERIF_C13_SPELLINGS": "5" if ctx.quick() else "8",
+           "VERIF_C13_RANDOM": "40" if ctx.quick() else "300"}
     rc, o = ctx.go_overlay_test("cmd/dawn",
                                 {"zz_verif_c13_cli_test.go": os.path.join(HARNESS, "overlay/cmd/dawn/zz_verif_c13_cli_test.go")},
                                 "^TestVerifC13CLI$", env, extra=["-modfile=" + os.path.join(ctx.tmp, "c13-go.mod")])
@@ -81,7 +81,7 @@ def run_cli(ctx):
              "prepare": g["prepare"], "dry_run_command_line": (["dawn"] + g["dry_args"]) if g.get("dry_args") else None,
              "then_without_the_flag": ["dawn"] + g["real_args"], "state": g["state"], "shape": g["shape"],
              "all_failing_spellings": spellings,
-             "how": "write project_files into an empty directory <root> (in the bodies, the quoted path after >> is a log file outside "
+             "how": "write project_files into an empty directory <root> (in the bodies, the quoted path after >> is a log file of that target outside "
                     "the project, the one after `test ! -e` is <root>/fail.flag), run the prepare steps, then the dry-run command line "
                     "in working_directory: no body may run, the tree under <root> may not change, and the labels it prints "
                     "'evaluating...' must be those the command line without the flag then prints; "
